@@ -16,7 +16,7 @@ def strategy(tier):
 
 
 def check(prog, ctx):
-    env = engine.run_program(prog)
+    env = oracles.first(prog)
     viol = oracles.clauses(env, "C02.")
     r, exp = oracles.reference(prog, env)
     viol += oracles.compare_with_reference(env, r, exp, "C02.propagation")
